@@ -72,7 +72,7 @@ def run(ctx):
             with open(p) as g:
                 f.write(g.read())
     gcases = os.path.join(ctx.work, "c06_gcases.ndjson")
-    total, used = vb.sample_lines(allc, gcases, 2000 if q else 60000, ctx.seed)
+    total, used = vb.sample_lines(allc, gcases, 0, ctx.seed)
     ctx.cov["legs"]["emitted-cases"] = {"emitted": total, "replayed": used}
     trg = os.path.join(ctx.work, "c06_trace_g.ndjson")
     rc, out, _ = ctx.gotest("kernel", "mm/vmm", HARNESS, "TestVerifC06Cases",
@@ -101,9 +101,9 @@ def run(ctx):
             ev = m["case_events"][m["line_in_case"] - 1]
             ctx.violation({"leg": leg, "mismatch": m["mismatch"], "event": {k: v for k, v in ev.items() if k != "script"}},
                           {"script": script_of(m["case_events"])})
-    ctx.cov["exhaustive"] = (not q) and used == total and not ctx.violations
+    ctx.cov["exhaustive"] = used == total and not ctx.violations
     ctx.cov["explanation"] = ("exhaustive = every transition of the TLC small scope (both families) was replayed on the real code "
-                              "(thorough tier); the quick tier replays a seeded sample")
+                              "(quick: 5 error codes, sequences up to 3 calls; thorough: error codes 0..31, sequences up to 5 calls)")
 
 
 def replay(ctx, path):
